@@ -304,13 +304,13 @@ def run(ctx):
                 pinned.append(c)
     for name, t in corpus_files():
         progs.append((name, t))
-    ngen = ctx.scale(250, 4000)
+    ngen = ctx.scale(200, 4000)
     for i in range(ngen):
         progs.append(("generated-%d" % i, gen_program(ctx.rng)))
     texts = [t for _, t in progs]
     base = m.parse(texts)
     lays = m.layouts(texts)
-    per_rw = ctx.scale(3, 25)
+    per_rw = ctx.scale(2, 25)
     cases = []            # (prog index, rw, pos, pfacts, variant, new text)
     nondet = []
     for pi, ((name, t), b, lay) in enumerate(zip(progs, base, lays)):
